@@ -17,16 +17,43 @@ def run(tier, seed, verdict):
                         simulate="num=%d" % (40 if quick else 400), depth=32),
             mr.ModelRun("MC_SimChurn.cfg", seed + 4, probes=("dead_ids", "reopen"), name_pools=[0, 3, 5],
                         simulate="num=%d" % (40 if quick else 400), depth=32)]
-    return run_property(
+    level, cov, assumptions = run_property(
         "C02", verdict, runs, require_actions=("SetAttr:ok", "WriteData:ok", "Delete:ok", "LinkAppend:ok", "SetRole:ok"),
         tlc_props=["TypeOK", "NoDangling", "IdNameStable"],
         rule="after every replayed transition the file is closed and reopened read-only and read-write; both "
              "projections (all entities, order, attributes incl. None/empty/non-ASCII values, data, link lists, role "
              "links, timestamps) must equal the specification state, which is also what was observable before closing; "
              "calls are issued through a seeded mix of long-lived handles and fresh lookups",
-        assumptions=["dimension descriptors and frames are covered by their own modules",
+        assumptions=["data frames and property value lists: the reopen facet of the NixFrame / NixMeta replays (C16, C10)",
                      "HDF5-internal layout and objects unreachable through the public API are not compared"])
+    # arrays with their dimension descriptors (own ticks / labels, links, units, labels): the reopen facet of NixDimLink
+    from . import runner, dimlink, c05, core
+    drun = runner.ExportRun("MC_NixDimLink", "MC_C05_dims_quick.cfg", seed, "harness.dimlink", opts={"ranks": c05.RANKS},
+                            stride=10 if quick else 3,
+                            label=lambda tx: dimlink.klass(tx["act"]) + ":" + tx["act"]["out"]).run()
+    for f in drun.findings:
+        if f.get("stage", "").startswith("reopen") and f["owner"] != "C12":
+            verdict.violation(f["key"], f["detail"], f["replay"])
+    if not drun.stats["replayed"]:
+        raise core.MachineryError("no dimension-descriptor transition replayed")
+    n = drun.stats["replayed"] - drun.counters.get("truncated", 0)
+    cov["states"] += drun.res.distinct
+    cov["transitions"] += drun.stats["exported"]
+    cov["evaluations"] += drun.stats["replayed"]
+    cov["traces_validated_against_impl"] += n
+    cov["distinct_nontrivial"] += n
+    cov["dimension_descriptors_reopened"] = n
+    cov["checker_cmd"] += " ;; " + drun.res.cmd
+    cov["rule"] += "; dimension descriptors: every NixDimLink transition (own ticks / labels, unit, label, links with every " \
+                   "index specification, unlink, delete) is followed by close + reopen in both modes"
+    return level, cov, assumptions
 
 
 def replay(path):
+    import json
+    with open(path) as fh:
+        rec = json.load(fh)
+    if isinstance(rec.get("replay"), dict) and rec["replay"].get("engine") == "NixDimLink":
+        from . import dimlink
+        return dimlink.replay_record(rec, "C02")
     return mr.replay_file(path)
